@@ -275,3 +275,50 @@ func VerifC09_JailedHasNoPower() {
 	}
 	zz.Reach("C09.jailed-no-power")
 }
+
+// VerifC01_UpdateMapOrder: determinism slice of C01: the validator-update batch is identical for every iteration
+// order of Go maps (Go randomises map iteration, so two replicas may iterate differently): two validators leave the set
+// in the same block while a third one changes power; the batch must be in the canonical order (changed validators by
+// power desc / address asc, then removed validators by address).
+func VerifC01_UpdateMapOrder() {
+	e := keeper.VNewEnv(3)
+	for i := 0; i < 3; i++ {
+		e.Fund(e.Addrs[i], sdk.NewInt(1<<41))
+	}
+	e.Stake(0, keeper.VSymInt("stake0", 1000000, 4000000))
+	e.Stake(1, keeper.VSymInt("stake1", 1000000, 4000000))
+	e.Stake(2, sdk.NewInt(2000000))
+	zz.NondetMapOrder(true)
+	first := keeper.EndBlocker(e.Ctx, e.K)
+	e.Advance(time.Second, 1)
+	// both symbolic validators leave the set in the same block
+	e.K.JailValidator(e.Ctx, e.Addrs[0])
+	h := NewHandler(e.K)
+	h(e.Ctx, types.MsgBeginUnstake{Address: e.Addrs[1]})
+	second := keeper.EndBlocker(e.Ctx, e.K)
+	zz.NondetMapOrder(false)
+	zz.Assert("C01.maporder.first-batch-has-all", len(first) == 3)
+	// canonical order of the first batch: power desc, address asc
+	for i := 0; i+1 < len(first); i++ {
+		a, b := first[i], first[i+1]
+		zz.Assert("C01.maporder.updates-in-canonical-order", a.Power > b.Power || (a.Power == b.Power && vAddrLess(e, a.PubKey.Data, b.PubKey.Data)))
+	}
+	zz.Assert("C01.maporder.removals-present", len(second) == 2 && second[0].Power == 0 && second[1].Power == 0)
+	if len(second) == 2 {
+		zz.Assert("C01.maporder.removals-sorted-by-address", vAddrLess(e, second[0].PubKey.Data, second[1].PubKey.Data))
+	}
+	zz.Reach("C01.maporder")
+}
+
+func vAddrLess(e *keeper.VEnv, pk1, pk2 []byte) bool {
+	var a1, a2 sdk.Address
+	for i := range e.Pubs {
+		if bytes.Equal(e.Pubs[i].RawBytes(), pk1) {
+			a1 = e.Addrs[i]
+		}
+		if bytes.Equal(e.Pubs[i].RawBytes(), pk2) {
+			a2 = e.Addrs[i]
+		}
+	}
+	return bytes.Compare(a1, a2) < 0
+}
